@@ -167,3 +167,32 @@ def closure_in_array_escape(v):
                     if yv.get("t") == "name" and yv["n"] in fnnames:
                         return True
     return False
+
+
+
+@predicate("closure-yield-escape")
+def closure_yield_escape(v):
+    """D26: a generator yields a function value capturing one of its variables, a for loop over that generator runs to its end
+    (its body contains no return, so no RET ever snapshots the frame), and the session then gives a wrong result"""
+    if not _wrong_result(v):
+        return False
+    items = [it for it in v.session["items"] if not (isinstance(it, dict) and it.get("perr"))]
+    gens_ = set()
+    for it in items:
+        for x in walk(it):
+            if x.get("t") == "assign" and x["e"].get("t") == "fn":
+                F = x["e"]
+                caps = _captures(F)
+                if not caps:
+                    continue
+                fnnames = {a["tgt"]["n"] for a in walk(F["body"]) if a.get("t") == "assign" and a["e"].get("t") == "fn"}
+                for yn in walk(F["body"]):
+                    if yn.get("t") == "yield" and any((z.get("t") == "fn" and any(z is g for g, _ in caps)) or (z.get("t") == "name" and z["n"] in fnnames) for z in walk(yn["e"])):
+                        gens_.add(x["tgt"]["n"])
+    if not gens_:
+        return False
+    for it in items:
+        for x in walk(it):
+            if x.get("t") == "for" and any(i.get("t") == "call" and i["name"]["n"] in gens_ for i in x["iters"]) and not any(z.get("t") == "ret" for z in walk(x["body"])):
+                return True
+    return False
